@@ -523,6 +523,37 @@ pub fn c11_cell(spec: &Value) -> Value {
                     c.violations.push(Violation { property: "C11".into(), clause: "option-name".into(), facts: facts(&[("kind", json!("enum"))]), what: format!("option name {name} does not round-trip"), replay: json!({"engine": "e3_codec", "check": "C11", "option": name}), weight: 1 });
                 }
             }
+            // the RFC's own assignment of numbers to NAMES (RFC 1350 section 5 and appendix, RFC 2347): a consistent
+            // permutation of two variants would survive every inverse / round-trip test above
+            let rfc_errors: [(ErrorCode, u16, &str); 8] = [
+                (ErrorCode::NotDefined, 0, "NotDefined"),
+                (ErrorCode::FileNotFound, 1, "FileNotFound"),
+                (ErrorCode::AccessViolation, 2, "AccessViolation"),
+                (ErrorCode::DiskFull, 3, "DiskFull"),
+                (ErrorCode::IllegalOperation, 4, "IllegalOperation"),
+                (ErrorCode::UnknownId, 5, "UnknownId"),
+                (ErrorCode::FileExists, 6, "FileExists"),
+                (ErrorCode::NoSuchUser, 7, "NoSuchUser"),
+            ];
+            for (ec, n, name) in rfc_errors {
+                c.executions += 1;
+                c.transitions += 3;
+                let wire = Packet::Error { code: ec, msg: "m".into() }.serialize().ok();
+                let ok = ec.as_bytes() == n.to_be_bytes() && ErrorCode::from_u16(n) == Ok(ec) && wire.as_ref().map(|w| w.len() >= 4 && w[..4] == [0, 5, (n >> 8) as u8, n as u8]).unwrap_or(false);
+                if !ok {
+                    c.violations.push(Violation { property: "C11".into(), clause: "errorcode-rfc-number".into(), facts: facts(&[("kind", json!("enum"))]), what: format!("ErrorCode::{name} must be error number {n} on the wire (RFC 1350): as_bytes() = {:?}, from_u16({n}) = {:?}, ERROR packet starts with {:?}", ec.as_bytes(), ErrorCode::from_u16(n), wire.map(|w| w[..w.len().min(4)].to_vec())), replay: json!({"engine": "e3_codec", "check": "C11", "u16": n}), weight: 1 });
+                }
+            }
+            let rfc_opcodes: [(Opcode, u16, &str); 6] = [(Opcode::Rrq, 1, "Rrq"), (Opcode::Wrq, 2, "Wrq"), (Opcode::Data, 3, "Data"), (Opcode::Ack, 4, "Ack"), (Opcode::Error, 5, "Error"), (Opcode::Oack, 6, "Oack")];
+            for (op, n, name) in rfc_opcodes {
+                c.executions += 1;
+                c.transitions += 2;
+                let named = op.as_bytes();
+                let back = Opcode::from_u16(n).map(|o| o.as_bytes());
+                if named != n.to_be_bytes() || back != Ok(n.to_be_bytes()) {
+                    c.violations.push(Violation { property: "C11".into(), clause: "opcode-rfc-number".into(), facts: facts(&[("kind", json!("enum"))]), what: format!("Opcode::{name} must be opcode {n} (RFC 1350/2347): as_bytes() = {:?}, from_u16({n}).as_bytes() = {:?}", named, back), replay: json!({"engine": "e3_codec", "check": "C11", "u16": n}), weight: 1 });
+                }
+            }
             c.samples.push(json!({"family": "enums", "range": "0..=65535 through Opcode::from_u16 and ErrorCode::from_u16"}));
         }
         other => return json!({"machinery_error": format!("unknown C11 family {other}")}),
@@ -547,7 +578,7 @@ pub fn c11_check(tier: Tier) -> Outcome {
     let res = run_cells("c11", cells, &crate::pool_opts(tier));
     let mut out = Outcome::new("C11", "model_checking");
     out.absorb(res, n);
-    out.rule = format!("grammar-generated Packet values: requests = 5 filenames x 5 modes x all option lists of length <= {maxopts} over 4 option types x 5 values (0,1,65464,2^32,2^64-1) incl. duplicates, for RRQ and WRQ; OACK with all lists <= 3; DATA for all 65536 block numbers x payload lengths (0,1,512; 8 lengths up to 65464 at boundary blocks); ACK for all 65536; ERROR 8 codes x 5 messages; Opcode/ErrorCode conversions over all 65536 values. Oracle: byte-for-byte equality with an independent RFC encoder, decode(encode(p)) == p, independent decoder reads the same fields. Every generated value is non-trivial (distinct by construction).");
+    out.rule = format!("grammar-generated Packet values: requests = 5 filenames x 5 modes x all option lists of length <= {maxopts} over 4 option types x 5 values (0,1,65464,2^32,2^64-1) incl. duplicates, for RRQ and WRQ; OACK with all lists <= 3; DATA for all 65536 block numbers x payload lengths (0,1,512; 8 lengths up to 65464 at boundary blocks); ACK for all 65536; ERROR 8 codes x 5 messages; Opcode/ErrorCode conversions over all 65536 values and every named variant against the RFC's number for that name. Oracle: byte-for-byte equality with an independent RFC encoder, decode(encode(p)) == p, independent decoder reads the same fields. Every generated value is non-trivial (distinct by construction).");
     out.assumptions = vec!["strings range over a representative set (empty, 1 char, ASCII, multi-byte UTF-8 with separators and a space, 600 bytes); they contain no NUL as the statement requires".into()];
     out
 }
